@@ -152,6 +152,10 @@ def C16(ctx):
     n = 4 if ctx.quick else 24 * TH
     record_and_validate(ctx, [("lru_%d" % i, ["record", "lru", "--seed", ctx.seed * 1000 + i, "--segments", 30, "--len", 80])
                               for i in range(n)], "TraceLru", "TraceLru.cfg")
+    # big tables (2^9 .. 2^11 slots) filled across their growth, with re-insertions of resident keys under new values, colliders in the
+    # grown table and read-backs right around the growth
+    record_and_validate(ctx, [("lru_big_%d" % i, ["record", "lru", "--seed", ctx.seed * 1000 + 300 + i, "--segments", 3, "--big", 1])
+                              for i in range(2 if ctx.quick else 4 * TH)], "TraceLru", "TraceLru.cfg")
     # at scale: 20 000-function histories in one builder per cache kind at default sizes; the two builders must return the same functions
     stress_canonical(ctx, "bdd", check="twin")
     # builder level: the same random programs under every cache configuration; every trace must be a
@@ -393,6 +397,8 @@ def C09(ctx):
                         # bulk-padded solvers: thousands of satisfied clauses over two fresh variables put the recorded clauses at literal
                         # occurrences around number 55 / 6 543 (the first primes that do not fit 8 / 16 bits): equal hashes must still
                         # mean equal residuals (the record shows the recorded clauses only; adversarial driver)
+                        + [("sat_long_%d" % i, ["record", "sat", "--seed", ctx.seed * 1000 + 900 + i, "--segments", 12, "--len", 30, "--nmax", 10])
+                           for i in range(1 if ctx.quick else 3 * TH)]     # 10 variables, a clause of 9+ literals
                         + [("sat_bulk_%d" % i, ["record", "sat", "--seed", ctx.seed * 1000 + 800 + i, "--segments", segs, "--len", 40, "--nmax", 6,
                                                 "--attack", 1, "--wide", 1, "--bulk", 1]) for i in range(2 if ctx.quick else 8 * TH)],
                         "TraceUnitProp", "TraceUnitProp.cfg")
@@ -416,7 +422,10 @@ def C06(ctx):
     model_check(ctx, "MC_TopDown", "MC_TopDown_all2.cfg", "all 676 two-clause CNFs over 3 variables x 6 orders", workers=8, timeout=1200)
     if not ctx.quick:
         model_check(ctx, "MC_TopDown", "MC_TopDown_all3.cfg", "all 10 400 three-clause CNFs over 3 variables x 6 orders", workers=16, timeout=3000, xmx="8g")
-    record_and_validate(ctx, td_jobs(ctx, 8 if ctx.quick else 40 * TH, 300 if ctx.quick else 500), "TraceTopDown", "TraceTopDown_C06.cfg")
+    # + CNFs over 10 variables with a clause of 9 or more literals of mixed polarity (TLC's universe: 1024 assignments)
+    record_and_validate(ctx, td_jobs(ctx, 8 if ctx.quick else 40 * TH, 300 if ctx.quick else 500)
+                        + [("td_long_%d" % i, ["record", "topdown", "--seed", ctx.seed * 1000 + 600 + i, "--segments", 12, "--nmax", 10])
+                           for i in range(1 if ctx.quick else 3 * TH)], "TraceTopDown", "TraceTopDown_C06.cfg")
 
 
 def C15(ctx):
